@@ -209,6 +209,15 @@ func c07Plan(thorough bool) []c07Segment {
 		tok("core", core, 3, c07AllMasks(3))
 		tok("tiny", tiny, 4, c07AllMasks(4))
 	}
+	// nano set: the structural tokens and the two kinds of directives, long enough for a
+	// directive next to a parenthesised group that carries another directive
+	// (`type:filename ( case:yes a )`), space separated
+	nano := []string{"(", ")", "a", "-", "or", "type:repo", "type:filename", "case:yes"}
+	tok("nano", nano, 5, []int{15})
+	tok("nano", nano, 6, []int{31})
+	if thorough {
+		tok("nano", nano, 7, []int{63})
+	}
 	return segs
 }
 
@@ -1410,5 +1419,5 @@ func TestVerifC07(t *testing.T) {
 	r.Assume("index-level searchers are index.NewSearcher over two in-memory simple shards (8 and 6 documents); the directory level is search.NewDirectorySearcher over the same two shards; the JSON API is web.NewMux(RPC) over that directory searcher")
 	r.Assume("a panic recovered by the sharded searcher and reported as Stats.Crashes / RepoList.Crashes counts as a panic")
 	r.Assume("only the smallest input is reported per failure class (panicking function, kind of the smallest panicking sub-query); the stages that fail are listed in the detail")
-	r.Finish("cases = every byte string over the 15-symbol alphabet up to length L (5 quick / 6 thorough) + every sequence of <= 2 (3 thorough) tokens of the full token set, of 3 (4 thorough) tokens of the core set and of 4 (5 thorough) tokens of the tiny set, with every {glued, spaced} separator choice, plus (thorough) space-separated sequences of 5 core tokens, each parsed; each distinct parsed query (by String()) run through String, QToProto, index Search ×2 option sets, index List, directory Search, directory List; + every JSON body of the truncation/deletion/wrong-value grammar through POST /api/search and /api/list. non-trivial = distinct parsed query that is not a constant, or JSON body answered with status 200 (the search or list really ran)")
+	r.Finish("cases = every byte string over the 15-symbol alphabet up to length L (5 quick / 6 thorough) + every sequence of <= 2 (3 thorough) tokens of the full token set, of 3 (4 thorough) tokens of the core set and of 4 (5 thorough) tokens of the tiny set, with every {glued, spaced} separator choice, plus (thorough) space-separated sequences of 5 core tokens, plus space-separated sequences of 5-6 (7) tokens over the 8-token nano set {(, ), a, -, or, type:repo, type:filename, case:yes}, each parsed; each distinct parsed query (by String()) run through String, QToProto, index Search ×2 option sets, index List, directory Search, directory List; + every JSON body of the truncation/deletion/wrong-value grammar through POST /api/search and /api/list. non-trivial = distinct parsed query that is not a constant, or JSON body answered with status 200 (the search or list really ran)")
 }
